@@ -430,6 +430,7 @@ class Model:
         # a transition has ONE domain per microstep: the one its exit set was computed from. (Read literally, the Rec.'s
         # enterStates() recomputes it after exitStates() updated the history, which for a target that is the history of a
         # state exited in this very microstep can yield a smaller domain and leave that state un-entered.)
+        self._last_all_targetless = all(not t.targets and t.events for t in ts)
         static = 'large-select' in self.quirks or 'fast-select' in self.quirks
         self._domain_cache = {id(t): (self._large_domain(t) if static else self.domain(t)) for t in ts if isinstance(t, Trans)}
         self.exit_states(ts)
@@ -639,6 +640,8 @@ class Model:
             macro_done = False
             while self.running and not macro_done:
                 enabled = self.select(None)
+                if enabled and getattr(self, '_last_all_targetless', False):
+                    self.labels.add('eventless-after-targetless-only')
                 if not enabled:
                     if not self.iq:
                         macro_done = True
